@@ -242,7 +242,7 @@ def parse_out(output):
         if not line.startswith('"OUT '):
             continue
         txt = line[5:-1].replace('\\"', '"')
-        hist, last, cfgm, eff = lib.parse_tla(txt)
+        hist, last, cfgm, eff = lib.fast_parse_tla(txt)
         rows.append((hist, last, cfgm, eff))
     return rows
 
